@@ -167,7 +167,12 @@ class ParallelRunner(BaseRunner):
             for fname in self.linter.templater.sequence_files(
                 fnames, config=self.config, formatter=None
             ):
-                yield fname, DeferredRenderTask(fname, self.config, fix)
+                yield (
+                    fname,
+                    DeferredRenderTask(
+                        fname, self.config, fix, tuple(self.linter.user_rules)
+                    ),
+                )
         else:
             yield from super().iter_partials(fnames, fix=fix)
 
@@ -240,7 +245,9 @@ class ParallelRunner(BaseRunner):
                 # Worker-side rendering: reconstruct a Linter from the root
                 # config and do render + lint in one step, keeping the full
                 # RenderedFile off the IPC boundary.
-                linter = Linter(config=task.root_config)
+                linter = Linter(
+                    config=task.root_config, user_rules=list(task.user_rules)
+                )
                 # FluffConfig.__getstate__ strips templater_obj to None before
                 # pickling (it's designed for main-process use only). Since we
                 # are deliberately rendering here in the worker, re-instantiate
